@@ -32,7 +32,7 @@ Reach(g, frontier, seen) ==
 Affected(g, changed) == {d \in Reach(g, changed \cap DOMAIN g, {}) : d.k = "asset"}
 
 TypeSeq == <<"L0", "L1", "L2", "L3", "L4", "L5", "L6", "L7", "N0", "N1", "N2", "N3", "N4", "N5",
-             "DL0", "DL1", "DL2", "RL0", "RL1", "S0", "AL0", "AL2">>
+             "DL0", "DL1", "DL2", "RL0", "RL1", "S0", "AL0", "AL2", "OL0", "OL2">>
 IdxOf(seq, x) == CHOOSE i \in 1..Len(seq) : seq[i] = x
 (* any fixed total order on keys will do *)
 KeyLess(a, b) == \/ IdxOf(TypeSeq, a.ty) < IdxOf(TypeSeq, b.ty)
